@@ -1024,7 +1024,10 @@ class bpch1(bpch_base):
                 (header[7], header[8]) == (first_header[7], first_header[8]) or
                 offset == file_size
             ):
-                if offset == file_size:
+                if offset == file_size and (
+                    (header[7], header[8]) !=
+                    (first_header[7], first_header[8])
+                ):
                     dim = header[13][::-1]
                     # start = header[14][::-1]
                     data_type = dtype('>i4, %s>f4, >i4' % str(tuple(int(d) for d in dim)))
